@@ -774,8 +774,35 @@ Definition str_zfill (v w : pyval) : res pyval :=
   | _, _ => Raise AttributeError
   end.
 
-(* repr/str of a float: only the integral case is modelled ("3.0"); the
-   shortest-round-trip algorithm is not. *)
+(* repr/str of a float.  Modelled exactly when the value has a finite decimal
+   expansion of at most 15 significant digits and 1e-4 <= |x| < 1e16: then the
+   shortest round-tripping string that CPython prints IS that expansion
+   (15 <= DBL_DIG).  Everything else is Unmodelled. *)
+Fixpoint strip_factor (fuel : nat) (p d : Z) (cnt : Z) : Z * Z :=
+  match fuel with
+  | O => (d, cnt)
+  | S f => if (d mod p =? 0) && (1 <? d) then strip_factor f p (d / p) (cnt + 1) else (d, cnt)
+  end.
+Definition pad_left (n : nat) (s : str) : str := repeat 48 (n - length s) ++ s.
+Definition float_repr (q : Q) : res str :=
+  let r := Qred q in
+  let n := Qnum r in let d := Zpos (Qden r) in
+  if d =? 1 then
+    (if Z.abs n <? 10 ^ 16 then Ok (str_of_Z n ++ [46; 48]) else Raise Unmodelled)
+  else
+  let '(d2, a) := strip_factor 64 2 d 0 in
+  let '(d5, b) := strip_factor 64 5 d2 0 in
+  if negb (d5 =? 1) then Raise Unmodelled else
+  let f := Z.max a b in
+  let m := Z.abs n * 10 ^ f / d in                 (* exact: d | 10^f *)
+  if (10 ^ 15 <=? m) then Raise Unmodelled else     (* more than 15 significant digits *)
+  if (Z.abs n * 10000 <? d) then Raise Unmodelled else   (* |x| < 1e-4: exponent form *)
+  let ds := digits 10 m in
+  let ds := pad_left (Z.to_nat (f + 1)) ds in
+  let ip := firstn (length ds - Z.to_nat f) ds in
+  let fp := skipn (length ds - Z.to_nat f) ds in
+  Ok ((if n <? 0 then [45] else []) ++ ip ++ [46] ++ fp).
+
 Definition py_str (v : pyval) : res pyval :=
   match v with
   | VStr s => Ok (VStr s)
@@ -783,13 +810,13 @@ Definition py_str (v : pyval) : res pyval :=
   | VBool true => Ok (VStr [84; 114; 117; 101])
   | VBool false => Ok (VStr [70; 97; 108; 115; 101])
   | VNone => Ok (VStr [78; 111; 110; 101])
-  | VFloat q =>
-      if Zpos (Qden (Qred q)) =? 1
-      then (if Z.abs (Qnum (Qred q)) <? 10 ^ 16
-            then Ok (VStr (str_of_Z (Qnum (Qred q)) ++ [46; 48]))
-            else Raise Unmodelled)
-      else Raise Unmodelled
+  | VFloat q => s <- float_repr q ;; Ok (VStr s)
   | _ => Raise Unmodelled
+  end.
+Definition py_repr (v : pyval) : res pyval :=
+  match v with
+  | VStr _ => Raise Unmodelled        (* quoting rules not modelled *)
+  | _ => py_str v
   end.
 
 Definition py_call (f : pyval) (args : list pyval) : res pyval :=
